@@ -4,6 +4,7 @@ import TdVerif.Model.C08Lazy2
 import TdVerif.Model.C08Apply
 import TdVerif.Model.C08Reduce
 import TdVerif.Model.C08Resize
+import TdVerif.Model.C08Out
 
 namespace TdVerif.Drive
 open TdVerif Sexp TdVerif.C08
@@ -180,6 +181,45 @@ def handleC08 (cmd : String) (args : List Sexp) : Option Sexp :=
         | some (bs, n) => mkOperand bs n sd feats j
         | none => mkOperand [] 0 sd feats j
       pure (resToSexp ((lazyCat Ls dim).map .lazy))
+  -- (c08.catout sd dim sd_out (feats ..) (op (bs ..) n) ..) : torch.cat(ops, dim, out=O), O a lazy stack of the result's batch size stacked along sd_out
+  | "c08.catout", sd :: dim :: sdo :: feats :: ops => do
+      let sd ← asNat? sd
+      let dim ← asInt? dim
+      let sdo ← asNat? sdo
+      let feats ← featsOf? feats
+      let ops ← ops.mapM fun
+        | .list [.atom "op", bs, n] => do pure ((← shapeOf? bs), (← asNat? n))
+        | _ => none
+      let Ls := (List.range ops.length).map fun j =>
+        match ops[j]? with
+        | some (bs, n) => mkOperand bs n sd feats j
+        | none => mkOperand [] 0 sd feats j
+      match Ls with
+      | [] => pure (tagged "err" [])
+      | L0 :: _ =>
+        let r : Int := L0.batch.length
+        let d0 : Int := if dim < 0 then r + dim else dim
+        if d0 ≥ r ∨ d0 < 0 ∨ sdo ≥ L0.batch.length then pure (tagged "err" []) else
+        let catBatch := L0.batch.set d0.toNat ((Ls.map fun L => at0 L.batch d0.toNat).sum)
+        let O := mkOperand (catBatch.eraseIdx sdo) (at0 catBatch sdo) sdo feats 9
+        pure (membersToSexp (lazyCatOut Ls dim O))
+  -- (c08.stackout sd dim sd_out (feats ..) (bs ..) n k) : torch.stack(k lazy stacks, dim, out=O)
+  | "c08.stackout", [sd, dim, sdo, feats, bs, n, k] => do
+      let sd ← asNat? sd
+      let dim ← asNat? dim
+      let sdo ← asNat? sdo
+      let feats ← featsOf? feats
+      let bs ← shapeOf? bs
+      let n ← asNat? n
+      let k ← asNat? k
+      let Ls := (List.range k).map fun j => mkOperand bs n sd feats j
+      match Ls with
+      | [] => pure (tagged "err" [])
+      | L0 :: _ =>
+        if dim > L0.batch.length ∨ sdo > L0.batch.length then pure (tagged "err" []) else
+        let stackBatch := L0.batch.insertIdx dim k
+        let O := mkOperand (stackBatch.eraseIdx sdo) (at0 stackBatch sdo) sdo feats 9
+        pure (membersToSexp (lazyStackOnto O (Ls.map absL) dim))
   -- (c08.stack sd dim (feats ..) (op (bs ..) n) ..) : torch.stack of lazy stacks sharing their stack dim, no out=
   | "c08.stack", sd :: dim :: feats :: ops => do
       let sd ← asNat? sd
